@@ -187,7 +187,7 @@ PROPS = {
         "assumptions": TRUST,
     },
     "C20": {
-        "technique": "TLA+ add_truncated loops (ImplTrunc.tla) model-checked for termination and earliest match (MC_C20, twins, known finding reproduced) + TLC trace validation of truncated additions under a watchdog",
+        "technique": "TLA+ add_truncated loops (ImplTrunc.tla) model-checked for termination and earliest match (MC_C20 on the whole universe, 3 twins incl. the pre-repair search order) + TLC trace validation of truncated additions under a watchdog",
         "level_text": "For every recorded t + p (either order) TLC checks the result matches t's fields read in the right offset, is not earlier "
                       "than p, is the EARLIEST such date-time (no matching day in between, least matching time of day), carries p's offset, is "
                       "valid, and that applying t again changes nothing; every call runs under a 5 s watchdog.",
